@@ -6,9 +6,12 @@
 // failing), creation failing at template load, detector check, deployment and
 // configuration, kill outcome scripts, DESTROY / after_DESTROY hook tasks at one
 // or several weights (held at a gate while the harness looks at the locks),
-// pending calls. After every round: listing, ownership, KILL calls, active
-// detectors, cancelled calls; a final creation needing the same detector checks
-// that it is free again.
+// pending calls; the executor or the agent of a task of the environment lost
+// before the destroy (Mesos FAILURE event, with and without the terminal status
+// updates: the task is unlocked but keeps its parent role, the environment's
+// watcher takes it to ERROR). After every round: listing, ownership, KILL calls,
+// active detectors, cancelled calls; a final creation needing the same detector
+// checks that it is free again.
 package c06
 
 import (
@@ -129,6 +132,99 @@ func matrix() []fw.Case {
 			add(fmt.Sprintf("destroy-hooks-%d", len(hs)), b)
 		}
 	}
+	// a task of the environment lost its executor / agent before the destroy: in CONFIGURED / RUNNING / DEPLOYED, FAILURE event with
+	// and without the terminal status updates; every destroy flavour once, force+keepTasks (the only one that keeps the
+	// roster entries of an environment in ERROR) every time
+	{
+		prep := map[string][]string{"CONFIGURED": nil, "RUNNING": {"START"}, "DEPLOYED": {"RESET"}}
+		n := 0
+		for _, st := range []string{"CONFIGURED", "RUNNING", "DEPLOYED"} {
+			for _, agent := range []bool{false, true} {
+				for _, upd := range []bool{false, true} {
+					fl := []int{5, n % 8}
+					if st == "CONFIGURED" && !agent && !upd {
+						fl = []int{0, 1, 2, 3, 4, 5, 6, 7}
+					}
+					n++
+					for _, f := range fl {
+						force, allow, keep := flags(f)
+						b := &ownh.B{}
+						k := b.Env("ok", []int{1}, ownh.OKT(1, 1), ownh.OKT(2, 2))
+						p := probe(b, []int{2})
+						b.Round(ownh.New(k))
+						for _, ev := range prep[st] {
+							b.Round(ownh.Ctl(k, ev))
+						}
+						loss := ownh.XFail(k, 0, upd)
+						if agent {
+							loss = ownh.AFail(k, 0, upd)
+						}
+						b.Round(loss).Round(ownh.Destroy(k, force, allow, keep)).Round(ownh.New(p)).Round(ownh.Destroy(k, force, allow, keep)).Round(ownh.Cleanup())
+						add("destroy-after-loss-"+st, b)
+					}
+				}
+			}
+		}
+	}
+	// one executor / agent serving two environments; both are destroyed afterwards
+	for i, agent := range []bool{false, true} {
+		b := &ownh.B{}
+		a := b.Env("ok", []int{1}, ownh.OKT(1, 1), ownh.OKT(2, 2))
+		c := b.Env("ok", []int{3}, ownh.OKT(11, 1), ownh.OKT(12, 3), ownh.P())
+		p := probe(b, []int{1})
+		loss := ownh.XFail(a, 0, i == 0)
+		if agent {
+			loss = ownh.AFail(a, 0, i == 0)
+		}
+		b.Round(ownh.New(a)).Round(ownh.New(c)).Round(ownh.Ctl(c, "START")).Round(loss).
+			Round(ownh.Destroy(a, true, false, true), ownh.Destroy(c, false, true, false)).Round(ownh.New(p)).Round(ownh.Cleanup())
+		add("destroy-after-loss-shared-host", b)
+	}
+	// the lost task is a DESTROY hook task (not critical: no watcher reaction, the hook is skipped), or was kept by an earlier destroy
+	for _, keep := range []bool{false, true} {
+		b := &ownh.B{}
+		k := b.Env("ok", []int{1}, ownh.OKT(1, 1), ownh.OKT(2, 4), ownh.H(3, 2, 10, false, "ok", "ok"))
+		p := probe(b, []int{1})
+		b.Round(ownh.New(k)).Round(ownh.XFail(k, 2, keep)).Round(ownh.Destroy(k, false, true, keep)).Round(ownh.New(p)).Round(ownh.Cleanup())
+		add("destroy-after-loss-hook", b)
+	}
+	{
+		b := &ownh.B{}
+		k := b.Env("ok", []int{1}, ownh.OKT(1, 1), ownh.OKT(2, 2))
+		p := probe(b, []int{1})
+		b.Round(ownh.New(k)).Round(ownh.Ctl(k, "RESET")).Round(ownh.Destroy(k, false, false, true)).Round(ownh.XFail(k, 0, true)).Round(ownh.AFail(k, 1, false)).
+			Round(ownh.New(p)).Round(ownh.Cleanup())
+		add("loss-after-destroy", b)
+	}
+	// the loss hits inside the creation's CONFIGURE (the watcher is not subscribed yet): configuration then fails
+	// (failure tail: GO_ERROR, forced teardown, KillTasks) or succeeds (the environment is CONFIGURED with a lost task; destroyed afterwards)
+	{
+		n := 0
+		for _, cfg := range []string{"stay", "err", "ok"} {
+			for _, agent := range []bool{false, true} {
+				for _, upd := range []bool{false, true} {
+					b := &ownh.B{}
+					live := b.Env("ok", []int{1}, ownh.OKT(1, 1), ownh.OKT(2, 2))
+					k := b.Env("ok", []int{3}, ownh.T(11, 3, "ok", cfg, "ok", "ok"), ownh.OKT(12, 4), ownh.OKT(13, 2))
+					p := b.Env("ok", []int{3}, ownh.OKT(91, 3))
+					loss := ownh.XFail(k, 1, upd)
+					if agent {
+						loss = ownh.AFail(k, 1, upd)
+					}
+					b.Round(ownh.New(live)).Round(ownh.New(k), loss)
+					tag := "create-fails-after-loss"
+					if cfg == "ok" {
+						tag = "create-with-loss"
+						force, allow, keep := flags([]int{1, 5, 3, 7}[n%4])
+						n++
+						b.Round(ownh.Destroy(k, force, allow, keep))
+					}
+					b.Round(ownh.New(p)).Round(ownh.Cleanup()).Round(ownh.Destroy(live, false, false, false))
+					add(tag, b)
+				}
+			}
+		}
+	}
 	// pending calls, two destroys at once, destroy next to another environment's control
 	{
 		b := &ownh.B{}
@@ -151,7 +247,22 @@ func genCase(r *rng.R) fw.Case {
 	var created []int
 	next := 0
 	nRounds := r.Range(3, 7)
+	lossTag := ""
 	for i := 0; i < nRounds; i++ {
+		// now and then an executor (or, once every environment exists, an agent other than the probe's) is lost: a round of its own
+		if len(created) > 0 && r.P(1, 6) {
+			k := rng.Pick(r, created)
+			if j, host, ok := lossTarget(r, b.Envs[k]); ok {
+				upd := r.P(1, 2)
+				if next == nEnv && host != 4 && r.P(1, 3) {
+					b.Round(ownh.AFail(k, j, upd))
+				} else {
+					b.Round(ownh.XFail(k, j, upd))
+				}
+				lossTag = "with-loss"
+				continue
+			}
+		}
 		n := 1
 		if r.P(1, 4) {
 			n = 2
@@ -198,7 +309,34 @@ func genCase(r *rng.R) fw.Case {
 		created = append(created, newHere...)
 	}
 	b.Round(ownh.New(probe))
-	return fw.Case{Input: b.String(), Tags: []string{"random", fmt.Sprintf("envs=%d", nEnv)}}
+	tags := []string{"random", fmt.Sprintf("envs=%d", nEnv)}
+	if lossTag != "" {
+		tags = append(tags, "random-"+lossTag)
+	}
+	return fw.Case{Input: b.String(), Tags: tags}
+}
+
+// lossTarget picks a task role of the environment whose executor / agent may be lost: only in
+// environments without scripted transition failures (a task going to ERROR in a transition
+// wakes the environment's watcher 0.5 s later, unobserved; a loss on top of that would race it).
+func lossTarget(r *rng.R, env *sx.Node) (j, host int, ok bool) {
+	var cand [][2]int
+	for i, ro := range env.At(2).List {
+		switch ro.At(0).Str() {
+		case "T":
+			if ro.At(5).Str() != "ok" {
+				return 0, 0, false
+			}
+			cand = append(cand, [2]int{i, ro.At(2).Int()})
+		case "H":
+			cand = append(cand, [2]int{i, ro.At(2).Int()})
+		}
+	}
+	if len(cand) == 0 {
+		return 0, 0, false
+	}
+	c := rng.Pick(r, cand)
+	return c[0], c[1], true
 }
 
 func generate(tier string, r *rng.R) []fw.Case {
@@ -228,8 +366,11 @@ func init() {
 			"force/allowInRunningState/keepTasks (each followed by a creation needing the same detector, a second destroy and a cleanup), the STOP/RESET issued by destroy failing, " +
 			"creation failing at template load (no workflow, no task class), detector check, deployment (task dies at launch with prompt / slow siblings, slow task only, no such host) " +
 			"and configuration (task stays / goes to ERROR, with hook task, with pending call) next to a live environment, DESTROY/after_DESTROY hook tasks (1; 2 at one weight; 2 and 3 weights; " +
-			"after_DESTROY overriding DESTROY; failing hook) x force x keepTasks, pending calls, concurrent destroys; random part: 1–3 environments (20% of roles with a scripted failure, " +
-			"35% with hooks, 15% with pending calls), 3–7 rounds of 1–2 concurrent requests dominated by destroys; each scenario = one real core in its own process; " +
+			"after_DESTROY overriding DESTROY; failing hook) x force x keepTasks, pending calls, concurrent destroys, " +
+			"a task of the environment lost its executor / its agent (FAILURE event with and without the terminal status updates) in CONFIGURED / RUNNING / DEPLOYED before a destroy " +
+			"(all 8 flag combinations once, force+keepTasks and one more every time), one executor / agent serving two environments, a lost DESTROY hook task, a loss after a destroy that kept the tasks, " +
+			"the loss hitting inside the creation's CONFIGURE (held at a gate) which then fails (stay / ERROR: failure tail) or succeeds (destroyed afterwards, keepTasks); random part: 1–3 environments (20% of roles with a scripted failure, " +
+			"35% with hooks, 15% with pending calls), 3–7 rounds of 1–2 concurrent requests dominated by destroys, one round in six a lost executor / agent instead; each scenario = one real core in its own process; " +
 			"non-trivial = >=3 rounds, >=3 requests, a creation and (a destroy or a second creation); distinct by input text",
 		Shrink:  ownh.Shrink,
 		Workers: 6,
@@ -242,6 +383,8 @@ func init() {
 			"the simulated master answers KILL at once (fairness premise: the master eventually reports killed tasks; KillTasks blocks on the acknowledgement)",
 			"a call that has not returned after 12 s (normal: 0.05–5 s) is recorded as a hang only when the core itself lists the environment inside transition DESTROY; otherwise the case is inconclusive",
 			"'pending calls cancelled' is read from the core's debug log line of the call goroutine (hook:<trigger>:<role> cancelled)",
+			"whether an environment's watcher reacts to a lost critical task (GO_ERROR, STOP of the RUNNING tasks, 0.5 s later) is read from the core's log line of subscribeToWfState and fed to the model; " +
+				"the harness waits for it exactly when the environment is listed, not in transition, and its workflow was not in ERROR before (ceiling reached = inconclusive)",
 			"release failures cannot be scripted through the API (they need a task locked by another environment); that branch is covered by the model and its theorems only",
 		},
 	})
